@@ -373,6 +373,12 @@ int main(int argc, char* argv[])
         auto solver = solver_t::all().get(i % 2 == 0 ? "lbfgs" : "bfgs");
         solver->parameter("solver::epsilon")   = 1e-8;
         solver->parameter("solver::max_evals") = 5000;
+        if (i % 2 == 1 && rng.coin())
+        {
+            // BFGS with the other initialisation of the inverse Hessian
+            const auto e = std::get<parameter_t::enum_t>(solver->parameter("solver::quasi::initialization").storage());
+            solver->parameter("solver::quasi::initialization") = e.m_domain[static_cast<size_t>(rng.range(0, static_cast<int64_t>(e.m_domain.size()) - 1))];
+        }
         quad_info_t qinfo;
         const auto  function = make_quadratic(rng, rng.range(1, 16), qinfo);
         run_cfg_t   rc;
